@@ -10,7 +10,7 @@ from common import RVH_DEBUG, hx, proof_stage, unhx
 from pipeline import correspondence, field, parse_loc, pipe_req
 from props.graphfacts import conclude, replay  # noqa: F401
 
-THEOREMS = ["Rva.undefined_label_reported", "Rva.undefined_names_spec", "Rva.no_undefined_no_error", "Rva.addName_mem", "Rva.cfgErrDiag_located",
+THEOREMS = ["Rva.undefined_label_reported", "Rva.undefined_names_spec", "Rva.no_undefined_no_error", "Rva.addName_mem", "Rva.cfgErrDiag_located", "Rva.firstLabel_spec",
             "Rva.buildLoop_spec", "Rva.duplicate_label_reported", "Rva.no_duplicate_no_error", "Rva.buildCfg_total",
             "Rva.directions_error", "Rva.markStep_error", "Rva.markStep_error_no_return", "Rva.pipeline_failure_sources"]
 
